@@ -37,16 +37,26 @@ type Input struct {
 	ProbeN      int     `json:"probe_n"`
 	BudgetNs    int64   `json:"budget_ns"`
 	Pattern     string  `json:"pattern"`
+	// concurrent waiters: that many goroutines call Hook.RateLimitWait at once (0 = no such probe)
+	ConcN int `json:"conc_n,omitempty"`
 	// operator-level case (op.go); nil = limiter-level case
 	Op *OpIn `json:"op,omitempty"`
+	// timed operator-level case (timed.go)
+	Timed *TimedIn `json:"timed,omitempty"`
 	// Seq is the list delta debugging may shorten (Spec.ShrinkKey): a mirror of Arrivals
-	// (limiter level) or of Op.Acts (operator level), written by Explicit into every recorded
+	// (limiter level), of Op.Acts (operator level) or of Timed.Plan, written by Explicit into every recorded
 	// input; when present it wins over the list it mirrors.
 	Seq []json.RawMessage `json:"seq,omitempty"`
 }
 
 // MarshalJSON keeps operator-level inputs free of the limiter-level members.
 func (in Input) MarshalJSON() ([]byte, error) {
+	if in.Timed != nil {
+		return json.Marshal(struct {
+			Timed *TimedIn          `json:"timed"`
+			Seq   []json.RawMessage `json:"seq,omitempty"`
+		}{in.Timed, in.Seq})
+	}
 	if in.Op != nil {
 		return json.Marshal(struct {
 			Op  *OpIn             `json:"op"`
@@ -60,6 +70,19 @@ func (in Input) MarshalJSON() ([]byte, error) {
 // normalize applies Seq (see Input).
 func normalize(in Input) Input {
 	if in.Seq == nil {
+		return in
+	}
+	if in.Timed != nil {
+		t := *in.Timed
+		t.Plan = nil
+		for _, raw := range in.Seq {
+			var a TTick
+			if json.Unmarshal(raw, &a) == nil {
+				t.Plan = append(t.Plan, a)
+			}
+		}
+		in.Timed = &t
+		in.Seq = nil
 		return in
 	}
 	if in.Op != nil {
@@ -93,6 +116,13 @@ func normalize(in Input) Input {
 // instead of a seed, and Seq.
 func Explicit(in Input, obs *Obs) Input {
 	in = normalize(in)
+	if in.Timed != nil {
+		for _, a := range in.Timed.Plan {
+			b, _ := json.Marshal(a)
+			in.Seq = append(in.Seq, b)
+		}
+		return in
+	}
 	if in.Op != nil {
 		op := *in.Op
 		if obs != nil && obs.Op != nil && len(obs.Op.Acts) > 0 {
@@ -120,7 +150,13 @@ type Obs struct {
 	Acts    []*int64 `json:"acts"` // nil entry = reservation not OK
 	Probe   []bool   `json:"probe"`
 	WallNs  int64    `json:"wall_ns"`
-	Op      *OpObs   `json:"op,omitempty"`
+	// concurrent waiters: instants (ns after the anchor taken before the goroutines were
+	// launched) at which RateLimitWait returned nil, in the order they were observed; ConcErr
+	// counts the calls that returned an error
+	Conc    []int64   `json:"conc,omitempty"`
+	ConcErr int       `json:"conc_err,omitempty"`
+	Op      *OpObs    `json:"op,omitempty"`
+	Timed   *TimedObs `json:"timed,omitempty"`
 }
 
 var base = time.Unix(1_700_000_000, 0)
@@ -134,6 +170,10 @@ func load(cfg string) (*hook.Hook, error) {
 func Run(in Input) Obs {
 	var o Obs
 	in = normalize(in)
+	if in.Timed != nil {
+		o.Timed = runTimed(*in.Timed)
+		return o
+	}
 	if in.Op != nil {
 		o.Op = runOp(*in.Op)
 		return o
@@ -180,6 +220,31 @@ func Run(in Input) Obs {
 			o.WallNs = int64(time.Since(t0))
 		}
 	}
+	if in.ConcN > 0 {
+		// several workers (one per queue that carries tasks of the hook) enter RateLimitWait of
+		// ONE hook at the same time.  The returns are observed by this goroutine, one clock.
+		h3, err := load(in.Config)
+		if err == nil {
+			type ret struct{ ok bool }
+			done := make(chan ret, in.ConcN)
+			anchor := time.Now()
+			for k := 0; k < in.ConcN; k++ {
+				go func() {
+					err := h3.RateLimitWait(context.Background())
+					done <- ret{err == nil}
+				}()
+			}
+			for k := 0; k < in.ConcN; k++ {
+				r := <-done
+				at := int64(time.Since(anchor))
+				if r.ok {
+					o.Conc = append(o.Conc, at)
+				} else {
+					o.ConcErr++
+				}
+			}
+		}
+	}
 	return o
 }
 
@@ -217,6 +282,13 @@ func coqActs(xs []*int64) string {
 
 func Render(in Input, obs *Obs, crash string) core.Case {
 	in = normalize(in)
+	if in.Timed != nil {
+		var to *TimedObs
+		if obs != nil {
+			to = obs.Timed
+		}
+		return renderTimed(*in.Timed, to, crash)
+	}
 	if in.Op != nil {
 		var oo *OpObs
 		if obs != nil {
@@ -233,16 +305,16 @@ func Render(in Input, obs *Obs, crash string) core.Case {
 		raw = fmt.Sprintf("(Some (mkRaw %s %s))", coqOZ(in.IntervalNs), coqOZ(in.Burst))
 	}
 	c := core.Case{}
-	coqObs := fmt.Sprintf("(mkObs %s %s %s %s %s %s)", core.CoqBool(o.Loaded), core.CoqBool(o.Inf), coqZ(o.Burst),
-		coqActs(o.Acts), core.CoqList(o.Probe, core.CoqBool), coqZ(o.WallNs))
+	coqObs := fmt.Sprintf("(mkObs %s %s %s %s %s %s %s)", core.CoqBool(o.Loaded), core.CoqBool(o.Inf), coqZ(o.Burst),
+		coqActs(o.Acts), core.CoqList(o.Probe, core.CoqBool), coqZ(o.WallNs), coqInts(o.Conc))
 	if crash != "" {
 		// a crash is reported as a direct finding by the driver; make the case a mismatch as well
-		coqObs = "(mkObs true true (zn 7) [] [] (zp 0))"
+		coqObs = "(mkObs true true (zn 7) [] [] (zp 0) [])"
 	}
-	c.Coq = fmt.Sprintf("(CLim (mkCase %s %s %d %s\n  %s))", raw, coqInts(in.Arrivals), in.ProbeN, coqZ(in.BudgetNs), coqObs)
+	c.Coq = fmt.Sprintf("(CLim (mkCase %s %s %d %s %d\n  %s))", raw, coqInts(in.Arrivals), in.ProbeN, coqZ(in.BudgetNs), in.ConcN, coqObs)
 	c.JSON = o
 	b, _ := json.Marshal(in.Arrivals)
-	c.Key = fmt.Sprintf("%v|%s|%s|%s|%d", in.HasSettings, coqOZ(in.IntervalNs), coqOZ(in.Burst), b, in.ProbeN)
+	c.Key = fmt.Sprintf("%v|%s|%s|%s|%d|%d", in.HasSettings, coqOZ(in.IntervalNs), coqOZ(in.Burst), b, in.ProbeN, in.ConcN)
 
 	// tags
 	c.Tags = append(c.Tags, "class:limiter")
@@ -305,8 +377,24 @@ func Render(in Input, obs *Obs, crash string) core.Case {
 	if in.ProbeN > 0 {
 		c.Tags = append(c.Tags, "wait-probe")
 	}
+	concDelayed := 0
+	for _, at := range o.Conc {
+		if in.IntervalNs != nil && *in.IntervalNs > 0 && at >= *in.IntervalNs {
+			concDelayed++
+		}
+	}
+	if in.ConcN > 0 {
+		c.Tags = append(c.Tags, "concurrent-waiters", fmt.Sprintf("concurrent-waiters:%d", in.ConcN))
+		if concDelayed >= 2 {
+			c.Tags = append(c.Tags, "concurrent-waiters:stacked-reservations")
+		}
+	}
 	// non-trivial: accepted configuration, at least 3 requests, and a limited hook really delays one
 	c.Nontrivial = o.Loaded && len(in.Arrivals) >= 3 && (o.Inf || delayed > 0)
+	if in.ConcN > 0 {
+		// concurrent waiters: at least two of them had to sleep (their reservations stack)
+		c.Nontrivial = o.Loaded && concDelayed >= 2
+	}
 	return c
 }
 
@@ -588,6 +676,46 @@ func fixedCase(ivs string, ns int64, burst *int64, has bool, arr []int64, pat st
 
 func i64(x int64) *int64 { return &x }
 
+// concurrent waiters: short intervals, B 1..3, B+2..B+4 goroutines in RateLimitWait at once
+// (the last of them returns (n-B)*I after the launch: at most ~0.5 s)
+var concDurations = []dur{{"20ms", 20e6}, {"30ms", 30e6}, {"50ms", 50e6}, {"0.08s", 80e6}, {"100ms", 100e6}, {"120ms", 120e6}}
+
+func genConc(r *core.Rng) Input {
+	in := Input{Pattern: "concurrent", Arrivals: []int64{0, 0, 0}}
+	var iv *dur
+	switch k := r.Intn(100); {
+	case k < 8:
+		// no settings: nobody waits
+		in.ConcN = 3 + r.Intn(3)
+	case k < 14:
+		in.HasSettings = true
+		d := dur{"0s", 0}
+		iv = &d
+		in.Burst = i64(int64(1 + r.Intn(3)))
+		in.ConcN = 3 + r.Intn(3)
+	default:
+		in.HasSettings = true
+		d := concDurations[r.Intn(len(concDurations))]
+		iv = &d
+		b := []int64{1, 1, 1, 2, 2, 3}[r.Intn(6)]
+		in.Burst = &b
+		in.ConcN = int(b) + 2 + r.Intn(3)
+	}
+	if iv != nil {
+		in.IntervalNs = &iv.ns
+		in.IntervalStr = iv.s
+	}
+	in.Config = configText(r, in.HasSettings, iv, in.Burst)
+	return in
+}
+
+func concCase(ivs string, ns int64, burst int64, n int) Input {
+	in := fixedCase(ivs, ns, i64(burst), true, []int64{0, 0, 0}, "corpus")
+	in.ProbeN, in.BudgetNs = 0, 0
+	in.ConcN = n
+	return in
+}
+
 // Corpus: the documented examples, the boundary configurations and past failures; runs first.
 func Corpus() []Input {
 	s := int64(1e9)
@@ -610,6 +738,9 @@ func Corpus() []Input {
 		fixedCase("10s", 10*s, i64(-1), true, []int64{0, 0, 100 * s}, "corpus"),
 		// awkward float arithmetic
 		fixedCase("333ms", 333_000_000, i64(3), true, []int64{0, 1, 2, 3, 4, 5, 6, 7, 333_000_001, 999_999_999}, "corpus"),
+		// concurrent waiters of one hook: reservations stack (I, 2I, 3I after the burst)
+		concCase("100ms", 100_000_000, 1, 4),
+		concCase("50ms", 50_000_000, 2, 6),
 	}
 }
 
@@ -622,14 +753,21 @@ func Gen(r *core.Rng, tier string) ([]core.In[Input], bool) {
 		op := op
 		ins = append(ins, core.In[Input]{Input: Input{Op: &op}, Stream: "corpus"})
 	}
+	for _, tc := range TimedCorpus() {
+		tc := tc
+		ins = append(ins, core.In[Input]{Input: Input{Timed: &tc}, Stream: "corpus"})
+	}
 	// operator-level scenarios (their own PRNG stream, so that the limiter-level stream is the
 	// one it always was)
 	n, maxN, nOp, maxSteps := 400, 40, 90, 16
+	nConc, nTimed := 24, 30
 	switch tier {
 	case "thorough":
 		n, maxN, nOp, maxSteps = 20000, 60, 1500, 24
+		nConc, nTimed = 400, 400
 	case "search":
 		n, maxN, nOp, maxSteps = 3000, 40, 300, 20
+		nConc, nTimed = 80, 100
 	}
 	var lim, ops []core.In[Input]
 	for i := 0; i < n; i++ {
@@ -648,6 +786,32 @@ func Gen(r *core.Rng, tier string) ([]core.In[Input], bool) {
 	for i := 0; i < nOp; i++ {
 		op := genOp(ro, maxSteps)
 		ops = append(ops, core.In[Input]{Input: Input{Op: &op}, Stream: "operator"})
+	}
+	// concurrent waiters and timed operator scenarios (short intervals, real waiting: 0.1-2 s
+	// each), again on their own PRNG stream; they are spread among the operator scenarios
+	rt := ro.Fork()
+	var slow []core.In[Input]
+	for i := 0; i < nTimed || i < nConc; i++ {
+		if i < nTimed {
+			tc := genTimed(rt)
+			slow = append(slow, core.In[Input]{Input: Input{Timed: &tc}, Stream: "timed"})
+		}
+		if i < nConc {
+			slow = append(slow, core.In[Input]{Input: genConc(rt), Stream: "concurrent-waiters"})
+		}
+	}
+	{
+		var mixed []core.In[Input]
+		k := 0
+		for i, c := range ops {
+			mixed = append(mixed, c)
+			for k < len(slow) && k*len(ops) < (i+1)*len(slow) {
+				mixed = append(mixed, slow[k])
+				k++
+			}
+		}
+		ops = append(mixed, slow[k:]...)
+		nOp = len(ops)
 	}
 	// interleave (the driver hands contiguous chunks to its workers; an operator scenario
 	// costs ~100 ms, a limiter case well under 1 ms)
@@ -669,6 +833,6 @@ func Gen(r *core.Rng, tier string) ([]core.In[Input], bool) {
 
 var Driver = core.Driver[Input, Obs]{
 	Spec: core.Spec{Property: "C18", Imports: []string{"C18_Model", "C18_Spec", "C18_Corr"}, Corr: "C18_Corr", Triggers: nil, ShrinkKey: "seq",
-		Rule: "OPERATOR LEVEL (tag class:operator): the real operator in-process on a fake cluster with 1-3 v1 hooks, each with settings (I >= 30 s, B 1..4) or without, onStartup / schedule / kubernetes bindings in main or named queues shared between hooks or not; a script of Boot / Tick / KubeEv / Finish ok / Finish FAIL (30-75% of the finishes; allowFailure on some bindings) chosen from the observable state; the queues' back-off is 0-3 ms (TaskQueue.ExponentialBackoffFn); after every action queues, open executions, unlocked monitors and the queues waiting in Hook.RateLimitWait (positively observed through Limiter.Tokens()) are compared with the model, every execution start is recorded with its measured instant and P (window bound per hook with settings; no waiting for hooks without) is evaluated on them; non-trivial = a limited hook, >= 4 actions of >= 2 kinds, >= 2 executions and a worker seen waiting in the limiter; distinct = distinct (hooks, settings, script).  LIMITER LEVEL (tag class:limiter): a v1 hook configuration with a generated settings block (I as a Go duration string, B an integer; keys absent / 0 / negative / out of int32 at a low rate; YAML and JSON renderings; with onStartup, schedule or kubernetes bindings) is loaded by the real Hook.LoadConfig; the *rate.Limiter it builds is driven with ReserveN(t,1) on a synthetic clock (patterns: burst, steady, bursts+pauses, random, long-pause, jitter, unsorted) and, for unlimited hooks and I >= 10s, Hook.RateLimitWait is probed B+2 times with a 50 ms deadline on the wall clock; non-trivial = accepted configuration, >= 3 requests and (limited => at least one request delayed); distinct = distinct (settings, arrivals, probe size)"},
+		Rule: "TIMED OPERATOR LEVEL (tag class:timed): the real operator with SHORT intervals (I 100-200 ms, B 1-3): a limited hook with schedule bindings in 2-3 DIFFERENT queues fed by one crontab or by crontabs fired a few ms apart (a second hook, with or without settings, may share crontabs and queues), 6-20 ticks, some with a pause that refills the bucket; executions end as soon as they are seen; several queue workers sleep in the limiter of ONE hook at once and wake up during the scenario; start instants are those at which the driver SEES the start (late, never early); P is the window bound for every window that begins at an anchor (an instant at which no execution was under way) and ends at an observed start - no tolerance; three modes: exact (~50%: a tick is issued only when the queues it feeds are empty, no crontab feeds two queues of one limited hook, and the next tick waits until the limiters have registered the requests - Limiter.TokensAt - so the workers ask in the order of the ticks) is also compared with the model run on the observed tick instants: same number of starts per hook, k-th start never earlier than the model's; wait (~20%: one crontab may feed two queues of a hook at once) and pile (~30%: ticks pile up behind the sleepers and are combined) are judged by P only; non-trivial = limited hook in >= 2 queues, >= 4 executions, >= 2 workers seen asleep in one hook's limiter at once; distinct = distinct (hooks, settings, plan).  CONCURRENT WAITERS (tag concurrent-waiters): limiter level with I 20-120 ms, B 1-3: B+2..B+4 goroutines call Hook.RateLimitWait(context.Background()) of one freshly loaded hook at once; the instants of their returns are judged by the same anchored bound and must not be earlier than the model's stacked grants (0 x B, I, 2I, ...); non-trivial = at least two waiters slept.  OPERATOR LEVEL (tag class:operator): the real operator in-process on a fake cluster with 1-3 v1 hooks, each with settings (I >= 30 s, B 1..4) or without, onStartup / schedule / kubernetes bindings in main or named queues shared between hooks or not; a script of Boot / Tick / KubeEv / Finish ok / Finish FAIL (30-75% of the finishes; allowFailure on some bindings) chosen from the observable state; the queues' back-off is 0-3 ms (TaskQueue.ExponentialBackoffFn); after every action queues, open executions, unlocked monitors and the queues waiting in Hook.RateLimitWait (positively observed through Limiter.Tokens()) are compared with the model, every execution start is recorded with its measured instant and P (window bound per hook with settings; no waiting for hooks without) is evaluated on them; non-trivial = a limited hook, >= 4 actions of >= 2 kinds, >= 2 executions and a worker seen waiting in the limiter; distinct = distinct (hooks, settings, script).  LIMITER LEVEL (tag class:limiter): a v1 hook configuration with a generated settings block (I as a Go duration string, B an integer; keys absent / 0 / negative / out of int32 at a low rate; YAML and JSON renderings; with onStartup, schedule or kubernetes bindings) is loaded by the real Hook.LoadConfig; the *rate.Limiter it builds is driven with ReserveN(t,1) on a synthetic clock (patterns: burst, steady, bursts+pauses, random, long-pause, jitter, unsorted) and, for unlimited hooks and I >= 10s, Hook.RateLimitWait is probed B+2 times with a 50 ms deadline on the wall clock; non-trivial = accepted configuration, >= 3 requests and (limited => at least one request delayed); distinct = distinct (settings, arrivals, probe size)"},
 	Gen: Gen, Run: Run, Render: Render, Explicit: Explicit, PerShard: 130, Workers: 8, CaseTimout: 20 * time.Second,
 }
